@@ -1,6 +1,6 @@
 use crate::net::EventLoops;
 use libc::{fd_set, timeval};
-use std::ffi::{c_int, c_uint};
+use std::ffi::c_int;
 use std::time::Duration;
 
 trait SelectSyscall {
@@ -55,14 +55,17 @@ impl<I: SelectSyscall> SelectSyscall for NioSelectSyscall<I> {
         errorfds: *mut fd_set,
         timeout: *mut timeval,
     ) -> c_int {
+        // left time in microseconds, `u64::MAX` means wait forever
         let mut t = if timeout.is_null() {
-            c_uint::MAX
+            u64::MAX
         } else {
-            unsafe {
-                c_uint::try_from((*timeout).tv_sec).expect("overflow")
-                    .saturating_mul(1_000_000)
-                    .saturating_add(c_uint::try_from((*timeout).tv_usec).expect("overflow"))
-            }
+            let tv = unsafe { *timeout };
+            let (Ok(sec), Ok(usec)) = (u64::try_from(tv.tv_sec), u64::try_from(tv.tv_usec)) else {
+                // negative fields are rejected like the native call does
+                crate::syscall::set_errno(libc::EINVAL);
+                return -1;
+            };
+            sec.saturating_mul(1_000_000).saturating_add(usec)
         };
         let mut o = timeval {
             tv_sec: 0,
@@ -78,7 +81,7 @@ impl<I: SelectSyscall> SelectSyscall for NioSelectSyscall<I> {
         if !errorfds.is_null() {
             s[2] = unsafe { *errorfds };
         }
-        let mut x = 1;
+        let mut x: u64 = 1;
         let mut r;
         // just check select every x ms
         loop {
@@ -88,9 +91,11 @@ impl<I: SelectSyscall> SelectSyscall for NioSelectSyscall<I> {
             if r != 0 || t == 0 {
                 break;
             }
-            _ = EventLoops::wait_event(Some(Duration::from_millis(u64::from(t.min(x)))));
-            if t != c_uint::MAX {
-                t = t.saturating_sub(x);
+            // check again after x ms, or earlier if less time is left
+            let slice = t.min(x * 1_000);
+            _ = EventLoops::wait_event(Some(Duration::from_micros(slice)));
+            if t != u64::MAX {
+                t = t.saturating_sub(slice);
             }
             if x < 16 {
                 x <<= 1;
